@@ -66,9 +66,11 @@ func runE1(p *an.Prog, r *an.Result) {
 			continue
 		}
 		ok := true
+		ipStep := stepIP(p)
 		an.EachInstr(fn, func(in ssa.Instruction) {
 			if ret, isRet := in.(*ssa.Return); isRet {
-				for _, o := range an.Origins(resultsOf(ret)[0], an.StepValue) {
+				// (through module helpers: a loop over the children may live in a function of its own)
+				for _, o := range an.Origins(resultsOf(ret)[0], ipStep) {
 					switch x := o.(type) {
 					case *ssa.Const:
 					case *ssa.Call:
@@ -182,18 +184,36 @@ func runE3(p *an.Prog, r *an.Result) {
 	name := an.FuncName(fn)
 	errPar := fn.Params[0]
 	stores := 0
-	an.EachInstr(fn, func(in ssa.Instruction) {
-		st, ok := in.(*ssa.Store)
-		if !ok {
-			return
+	// through helpers of WrapError (a function that builds the wrapper from the cause it is given):
+	// their parameters stand for the arguments WrapError passes, WrapError's own parameters are origins
+	ip := stepIP(p)
+	within := func(v ssa.Value) []ssa.Value {
+		if par, ok := v.(*ssa.Parameter); ok && par.Parent() == fn {
+			return nil
 		}
-		fa, ok := st.Addr.(*ssa.FieldAddr)
-		if !ok || fieldName(fa) != "cause" {
-			return
+		return ip(v)
+	}
+	var causeStores []*ssa.Store
+	for _, uf := range unitWithHelpers(p, fn) {
+		if uf.Pkg != fn.Pkg {
+			continue
 		}
+		an.EachInstr(uf, func(in ssa.Instruction) {
+			if st, ok := in.(*ssa.Store); ok {
+				if fa, ok := st.Addr.(*ssa.FieldAddr); ok && fieldName(fa) == "cause" {
+					if c, isC := st.Val.(*ssa.Const); isC && c.Value == nil {
+						return // a constructor's `cause: nil`
+					}
+					causeStores = append(causeStores, st)
+				}
+			}
+		})
+	}
+	for _, st := range causeStores {
+		fa := st.Addr.(*ssa.FieldAddr)
 		stores++
 		good := true
-		for _, o := range an.Origins(st.Val, an.StepValue) {
+		for _, o := range an.Origins(st.Val, within) {
 			switch x := o.(type) {
 			case *ssa.Parameter:
 				if x != errPar {
@@ -202,7 +222,7 @@ func runE3(p *an.Prog, r *an.Result) {
 			case *ssa.Call:
 				if !x.Call.IsInvoke() || x.Call.Method.Name() != "Cause" {
 					good = false
-				} else if !an.Reaches(x.Call.Value, an.StepValue, func(v ssa.Value) bool { return v == ssa.Value(errPar) }) {
+				} else if !an.Reaches(x.Call.Value, within, func(v ssa.Value) bool { return v == ssa.Value(errPar) }) {
 					good = false
 				}
 			default:
@@ -217,7 +237,7 @@ func runE3(p *an.Prog, r *an.Result) {
 		// a wrapper without a position is looked through: where the error being wrapped is itself a
 		// located error (that is why it gets wrapped again: it had no position), its cause is what is kept
 		looksThrough := false
-		for _, o := range an.Origins(st.Val, an.StepValue) {
+		for _, o := range an.Origins(st.Val, within) {
 			if c := an.CallOf(o); c != nil && c.IsInvoke() && c.Method.Name() == "Cause" {
 				looksThrough = true
 			}
@@ -302,7 +322,7 @@ func runE3(p *an.Prog, r *an.Result) {
 			}
 		}
 		// the constructed error is what is returned
-	})
+	}
 	if stores == 0 {
 		r.Bad(name, "the cause is never stored", an.FuncPos(fn), "a wrapped error loses its cause: Cause() returns nil and break/continue are not recognised")
 	}
@@ -369,6 +389,23 @@ func runE7(p *an.Prog, r *an.Result) {
 	for _, c := range callsNamed(fn, "parser.Errorf") {
 		builds = append(builds, c)
 	}
+	// or a call of a helper of the same package that builds it (wrapCause(cause, loc))
+	an.EachInstr(fn, func(in ssa.Instruction) {
+		c, ok := in.(*ssa.Call)
+		if !ok {
+			return
+		}
+		callee := c.Call.StaticCallee()
+		if callee == nil || callee == fn || callee.Blocks == nil || callee.Pkg != fn.Pkg || an.FuncName(callee) == "parser.Errorf" {
+			return
+		}
+		for _, hf := range unitWithHelpers(p, callee) {
+			if len(callsNamed(hf, "parser.Errorf")) > 0 {
+				builds = append(builds, c)
+				return
+			}
+		}
+	})
 	if ta != nil {
 		if it, ok := ta.AssertedType.Underlying().(*types.Interface); ok {
 			an.EachInstr(fn, func(in ssa.Instruction) {
